@@ -38,7 +38,8 @@ def known_pull_finding(recs_of_script, findings):
             while j > 0 and atts[j - 1]["final"][b] == "bad":
                 j -= 1
             # atts[j] is the attempt in which the blob became bad
-            if j == i or atts[j]["err"] == "" or "digest mismatch" in atts[j]["err"]:
+            # ... i.e. attempt j stopped before every layer was fetched (a layer is still missing after it)
+            if j == i or atts[j]["err"] == "" or "digest mismatch" in atts[j]["err"] or not any(x == "absent" for x in atts[j]["final"]):
                 return None
         return "unverified-blob-left-by-failed-attempt"
     return None
